@@ -48,12 +48,6 @@ def isolation(executor_names):
     return check
 
 
-def wraps_or_passes(tr, outcome, raised, env, ex, s):
-    """C11: an Exception raised by the node leaves the superstep wrapped in ExecutionError; PauseExecution and other
-    BaseExceptions pass unchanged."""
-    return True
-
-
 SUPERSTEP_PARAMS = {"graph": OBJ("Graph"), "state": OBJ("GraphState"), "ready_nodes": SEQ(OBJ("HyperNode")), "provided_values": DICT(STR, ANY), "execute_node": ANY,
                     "cache": ANY, "dispatcher": OPT(OBJ("EventDispatcher")), "run_id": STR, "run_span_id": STR}
 
@@ -78,3 +72,40 @@ CONTRACTS = {
         callables={"execute_node": {"raises": ["BaseException"], "returns": DICT(STR, ANY)}},
     ),
 }
+
+# The per-node worker of the asynchronous superstep is a closure: its free variables (the superstep's arguments and the
+# copy `new_state` made before the workers start) are given as parameters, with `new_state is not state` from the caller.
+CONTRACTS.update({
+    AS + "run_superstep_async.execute_one": dict(
+        props=["C02", "C01"],
+        params={"node": OBJ("HyperNode"), "graph": OBJ("Graph"), "state": OBJ("GraphState"), "new_state": OBJ("GraphState"), "provided_values": DICT(STR, ANY),
+                "execute_node": ANY, "cache": ANY, "dispatcher": OPT(OBJ("EventDispatcher")), "active": BOOL, "run_id": STR, "run_span_id": STR},
+        returns=ANY,
+        requires=["new_state is not state", "all(k in state.values for k in provided_values)", "all(src_defined(graph, state, node, p) for p in node.inputs)",
+                  "new_state.routing_decisions is not state.routing_decisions",
+                  "active == (dispatcher is not None and bool(dispatcher.active))"],
+        may_raise={"BaseException": True},
+        call_site="opaque",
+        # the worker writes only to the copy's routing decisions (through the executor / cache restore) and the span slot
+        modifies=["new_state.routing_decisions", "execute_node.current_span_id"],
+        trace=[{"name": "C02 same-step isolation: the worker reads the snapshot, hands the copy to the executor", "check": isolation({"execute_node"})}],
+        callables={"execute_node": {"raises": ["BaseException"], "returns": DICT(STR, ANY), "coroutine": True}},
+    ),
+})
+
+
+CONTRACTS.update({
+    AS + "run_superstep_async": dict(
+        props=["C02"],
+        params=dict(SUPERSTEP_PARAMS, max_concurrency=OPT(INT)),
+        returns=OBJ("GraphState"),
+        may_raise={"BaseException": True},
+        call_site="opaque",
+        ensures=["result is not state"],
+        modifies=[],
+        trace=[{"name": "C02 the collected outputs are written to the copy, never to the snapshot", "check": isolation(set())}],
+        loops=[{"modifies": ["new_state.values", "new_state.versions", "new_state.node_executions"], "invariant": ["new_state is not state"],
+                "body_trace": [{"name": "C02 outputs applied to the copy", "check": isolation(set())}]},
+               {"modifies": ["new_state.values", "new_state.versions"], "invariant": []}],
+    ),
+})
